@@ -346,4 +346,45 @@ func runNBNS(r *lib.Run) func(a []string) string {
 	}
 }
 
+// ---- nbenc / nbdec / nna: the unexported NetBIOS codecs through the verif hooks ----
+func runNBEnc(r *lib.Run) func(a []string) string {
+	return func(a []string) string {
+		return lib.Hex(dns_naming.VerifEncodeNBNSName(string(lib.UnHex(a[0]))))
+	}
+}
+
+func runNBDec(r *lib.Run) func(a []string) string {
+	return func(a []string) string {
+		buf := withCap(lib.UnHex(a[0]), lib.UnHex(a[1]))
+		return guarded(func() string {
+			n, name, err := dns_naming.VerifDecodeNBNSName(buf)
+			if err != nil {
+				return errClass(err)
+			}
+			return fmt.Sprintf("%d %s", n, lib.Hex([]byte(name)))
+		})
+	}
+}
+
+func runNNA(r *lib.Run) func(a []string) string {
+	return func(a []string) string {
+		b := lib.UnHex(a[0])
+		b = b[:len(b):len(b)]
+		return guarded(func() string {
+			names, err := dns_naming.VerifParseNodeNameArray(b)
+			if err != nil {
+				return errClass(err)
+			}
+			if len(names) == 0 {
+				return "none"
+			}
+			var out []string
+			for _, n := range names {
+				out = append(out, lib.Hex([]byte(n)))
+			}
+			return strings.Join(out, ",")
+		})
+	}
+}
+
 var _ = net.IPv4len
